@@ -3,6 +3,7 @@
   (the number <-> NaiveDateTime conversions and the component builtins).  Do not edit.  SlacProps/C16Source.lean proves SlacModel/TimeCore.lean equal to these functions.
 -/
 import SlacModel.TimeCore
+import SlacModel.Generated.SrcStdlib
 set_option autoImplicit false
 set_option linter.unusedVariables false
 namespace Slac.Generated.SrcTime
@@ -93,5 +94,27 @@ def is_leap_year (params : List (Value N)) : Except NativeError (Value N) :=
       ((Except.map (fun year => ((year % 4 == 0) && ((year % 100 != 0) || (year % 400 == 0)))) (Except.map (fun datetime => datetime.year) (try_from value))) >>= fun is_leap_year =>
        .ok (.bool is_leap_year))
   | _ => .error (.wrongParameterCount 1)
+
+/-- `encode_date` (src/stdlib/time.rs) -/
+def encode_date (params : List (Value N)) : Except NativeError (Value N) :=
+  match params with
+  | [.num year, .num month, .num day] => (match Option.map (fun t => (from_datetime t : Value N)) (Option.map (fun date => (⟨date, 0⟩ : DT)) ((if validDate (NumX.toI32 year) (NumX.toU32 month) (NumX.toU32 day) then some (daysFromCivil (NumX.toI32 year) (NumX.toU32 month) (NumX.toU32 day)) else none))) with | some v => .ok v | none => .error (.custom ['i', 'n', 'v', 'a', 'l', 'i', 'd', ' ', 'd', 'a', 't', 'e', ' ', 'p', 'a', 'r', 'a', 'm', 'e', 't', 'e', 'r', 's']))
+  | [_, _, _] => .error .wrongParameterType
+  | _ => .error (.wrongParameterCount 3)
+
+/-- `encode_time` (src/stdlib/time.rs) -/
+def encode_time (params : List (Value N)) : Except NativeError (Value N) :=
+  (SrcStdlib.default_number params 3 (NumOps.zero : N)) >>= fun milli =>
+  match params with
+  | (.num hour) :: (.num min) :: (.num sec) :: _ =>
+      (if List.all [hour, min, sec, milli] (fun v => NumX.ge0 v) then
+         (match Option.map (fun t => (from_datetime t : Value N)) ((if validTime (NumX.toU32 hour) (NumX.toU32 min) (NumX.toU32 sec) (NumX.toU32 milli) then some (⟨0, ((NumX.toU32 hour) * 3600 + (NumX.toU32 min) * 60 + (NumX.toU32 sec)) * 1000 + (NumX.toU32 milli)⟩ : DT) else none)) with | some v => .ok v | none => .error (.custom ['i', 'n', 'v', 'a', 'l', 'i', 'd', ' ', 't', 'i', 'm', 'e', ' ', 'p', 'a', 'r', 'a', 'm', 'e', 't', 'e', 'r', 's']))
+       else
+         (match params with
+          | (.num _) :: (.num _) :: (.num _) :: _ => .error (.custom ['i', 'n', 'v', 'a', 'l', 'i', 'd', ' ', 't', 'i', 'm', 'e', ' ', 'p', 'a', 'r', 'a', 'm', 'e', 't', 'e', 'r', 's'])
+          | _ :: _ :: _ :: _ => .error .wrongParameterType
+          | _ => .error (.wrongParameterCount 3)))
+  | _ :: _ :: _ :: _ => .error .wrongParameterType
+  | _ => .error (.wrongParameterCount 3)
 
 end Slac.Generated.SrcTime
